@@ -4,6 +4,7 @@ C03 — property theorems about `labelModel`, the executable model of `mahotas.l
 -/
 import Mahotas.Proofs.C03Label
 import Mahotas.Proofs.C03Spec
+import Mahotas.Proofs.C03Iter
 namespace Mahotas.C03
 open Mahotas Relation
 
@@ -245,6 +246,25 @@ theorem C03_model_eq_specLabels (shape : List Nat) (data : List Int) (bshape : L
     · exact s7
   exact Prod.ext hL hc
 
+/-- **C03 ↔ F6 (the filter iterator).** The neighbour list the model of `label` uses at the `i`-th pixel of the
+scan — `offset k − shape/2` pushed through `fix_offset` per axis (`neighbours`, `offsets`) — is, entry by entry,
+what the transliterated `filter_iterator` mechanism (`init_filter_offsets` table over array regions,
+`init_filter_iterator` strides/backstrides, `iterate_both`, `retrieve`; `Model/FilterIter.lean`, whose walk the
+harness compares with the real `_filters.cpp` under op `f6`) retrieves after `i` steps for the footprint of the
+non-zero entries of the element: flagged entries are skipped, any other entry `off` reads the pixel at
+`position + off`. Any border mode, any rank, array and element shapes with entries ≥ 1 (element smaller than,
+equal to or larger than the image, odd or even). So the closed form is not an extra modelling assumption of C03:
+it is the F6 theorem instantiated. -/
+theorem C03_neighbours_are_filter_iterator_reads (m : Mode) (shape bshape : List Nat) (bc : Array Int)
+    (hlen : shape.length = bshape.length) (ha : ∀ a ∈ shape, 1 ≤ a) (hf : ∀ f ∈ bshape, 1 ≤ f)
+    (i : Nat) (hi : i < shapeSize shape) :
+    neighbours m shape (offsets bshape bc) (unravelI shape i) =
+      (List.range (offsets bshape bc).length).filterMap fun j =>
+        retrievedIndex shape (unravelI shape i)
+          (FilterIter.retrieve (FilterIter.mkFIter m shape bshape (fpOf bc))
+            (FilterIter.stateAfter (FilterIter.mkFIter m shape bshape (fpOf bc)) shape i) j) :=
+  neighbours_eq_retrieved m shape bshape bc hlen ha hf i hi
+
 /-! non-vacuity: a 3×4 image whose three scan-order fragments merge late (U shape) plus an isolated
     pixel; both hypotheses of the partition theorem are met and the model labels it as the spec does. -/
 example :
@@ -271,4 +291,14 @@ example :
       ([1, 0, 1, 0, 1, 0, 1, 0, 1, 1, 1, 1], 1) := by
   intro data
   refine ⟨rfl, rfl, ?_⟩
+  decide +kernel
+
+/-! non-vacuity of the F6 tie: pixel (0,1) of a 1×2 image under the element `{(-1,-1), (0,-1)}` (3×3): the
+    mechanism flags the first entry (outside the image, constant mode) and reads pixel 0 through the second. -/
+example :
+    (List.range (offsets [3, 3] #[1, 0, 0, 1, 0, 0, 0, 0, 0]).length).filterMap (fun j =>
+        retrievedIndex [1, 2] (unravelI [1, 2] 1)
+          (FilterIter.retrieve (FilterIter.mkFIter .constant [1, 2] [3, 3] (fpOf #[1, 0, 0, 1, 0, 0, 0, 0, 0]))
+            (FilterIter.stateAfter (FilterIter.mkFIter .constant [1, 2] [3, 3] (fpOf #[1, 0, 0, 1, 0, 0, 0, 0, 0])) [1, 2] 1) j))
+      = [0] := by
   decide +kernel
